@@ -167,13 +167,32 @@ let call_s (c : fscall) =
   | CRemoveDir p -> p1 "remove_dir" p | CCopyFile (a, b) -> p2 "copy_file" a b | CMoveFile (a, b) -> p2 "move_file" a b
   | CMoveDir (a, b) -> p2 "move_dir" a b
 
+let label_s = function
+  | LExists -> "memfs:exists" | LScan -> "memfs:scan" | LInsertDir -> "memfs:insert_dir" | LSetC -> "memfs:set_creation"
+  | LSetM -> "memfs:set_modification" | LSetA -> "memfs:set_access" | LGetReader -> "memfs:get_reader"
+  | LInsertFile -> "memfs:insert_file" | LAppendOpen -> "memfs:append_open" | LMeta -> "memfs:metadata"
+  | LRemoveFile -> "memfs:remove_file" | LRemove -> "memfs:remove" | LPublish -> "memfs:publish"
+
 type pending = { mutable name : string; mutable bases : basekind list; mutable cfg : fsref list;
-                 mutable ops : op list; mutable fuel : int; mutable embfiles : (path * bytes) list }
+                 mutable ops : op list; mutable fuel : int; mutable embfiles : (path * bytes) list;
+                 mutable conc : bool; mutable setup : op list; mutable threads : op list list; mutable sched : string }
 
 let () =
-  let ic = if Array.length Sys.argv > 1 then open_in Sys.argv.(1) else stdin in
-  let cur = { name = ""; bases = []; cfg = []; ops = []; fuel = 400; embfiles = [] } in
+  let ic = if Array.length Sys.argv > 1 then Stdlib.open_in Sys.argv.(1) else Stdlib.stdin in
+  let cur = { name = ""; bases = []; cfg = []; ops = []; fuel = 400; embfiles = []; conc = false; setup = []; threads = []; sched = "" } in
+  let finish_conc () =
+    let cfg = List.rev cur.cfg in
+    let sch = if cur.sched = "" then [] else List.map (fun x -> nat_of_int (int_of_string x)) (split_on ',' cur.sched) in
+    let c = { cc_bases = List.rev cur.bases; cc_cfg = cfg; cc_setup = List.rev cur.setup;
+              cc_threads = List.rev (List.map List.rev cur.threads); cc_schedule = sch;
+              cc_target = nat_of_int (List.length cfg - 1) } in
+    let ((res, labels), snap) = run_conc (nat_of_int cur.fuel) c in
+    let tres = List.map (function None -> "UNFINISHED" | Some l -> String.concat ";" (List.map (res_s value_s) l)) res in
+    Printf.printf "run %s %s labels %s :: %s || %s\n" cur.name cur.sched
+      (String.concat "," (List.map (fun (t, l) -> string_of_int (int_of_nat t) ^ ":" ^ label_s l) labels))
+      (String.concat " | " tres) (res_s value_s snap) in
   let finish () =
+    if cur.conc then finish_conc () else
     let cfg = List.rev cur.cfg in
     let c = { c_bases = List.rev cur.bases; c_cfg = cfg; c_ops = List.rev cur.ops } in
     let outs = run_case (nat_of_int cur.fuel) c in
@@ -187,7 +206,14 @@ let () =
       let line = String.trim (input_line ic) in
       if line <> "" && line.[0] <> '#' then begin
         match split_on ' ' line with
-        | ["case"; n] -> cur.name <- n; cur.bases <- []; cur.cfg <- []; cur.ops <- []; cur.fuel <- 400; cur.embfiles <- []
+        | ["case"; n] -> cur.name <- n; cur.bases <- []; cur.cfg <- []; cur.ops <- []; cur.fuel <- 400; cur.embfiles <- []; cur.conc <- false
+        | ["conc"; n] -> cur.name <- n; cur.bases <- []; cur.cfg <- []; cur.ops <- []; cur.fuel <- 400; cur.embfiles <- [];
+                         cur.conc <- true; cur.setup <- []; cur.threads <- []; cur.sched <- ""
+        | "setup" :: toks -> cur.setup <- parse_op toks :: cur.setup
+        | ["thread"; _] -> cur.threads <- [] :: cur.threads
+        | ["schedule"; s] -> cur.sched <- s
+        | ["schedule"] -> cur.sched <- ""
+        | "mode" :: _ -> ()
         | ["base"; "mem"] -> cur.bases <- KMem :: cur.bases
         | ["base"; "phys"] -> cur.bases <- KPhys :: cur.bases
         | ["embfile"; p; b] -> cur.embfiles <- (prs (unhex p), unhex b) :: cur.embfiles
@@ -207,6 +233,8 @@ let () =
             (* every instance is wrapped by the harness's recording/fault wrapper with its own id *)
             cur.cfg <- FWrap (k, f) :: cur.cfg
         | ["fuel"; n] -> cur.fuel <- int_of_string n
+        | "op" :: toks when cur.conc ->
+            (match cur.threads with t :: rest -> cur.threads <- (parse_op toks :: t) :: rest | [] -> failwith "op outside thread")
         | "op" :: toks -> cur.ops <- parse_op toks :: cur.ops
         | ["end"] -> finish ()
         | _ -> failwith ("bad line " ^ line)
